@@ -194,7 +194,7 @@ func Decide(prop string, results []*RuleResult, known []Known) Outcome {
 			case Violation:
 				matched := false
 				for _, k := range known {
-					if k.Kind == "known" && k.Property == prop && k.Rule == o.Rule && k.Site == o.Key {
+					if k.Kind == "known" && k.Property == prop && k.Rule == o.Rule && (k.Site == o.Key || k.Site == stripConfig(o.Key)) {
 						o.Known = k.Text
 						matched = true
 						break
@@ -344,4 +344,13 @@ func kvField(line, name string) string {
 		return rest[:j]
 	}
 	return rest
+}
+
+// stripConfig removes the "@goos/goarch" suffix the thorough tier adds to
+// obligations found under another build configuration.
+func stripConfig(key string) string {
+	if i := strings.LastIndex(key, "@"); i >= 0 && strings.Contains(key[i:], "/") {
+		return key[:i]
+	}
+	return key
 }
